@@ -1,1 +1,25 @@
-fn main(){}
+use vcore::evid::{parse_args, silence_panics};
+
+fn main() {
+    let args: Vec<String> = std::env::args().collect();
+    if args.get(1).map(|s| s.as_str()) == Some("c17-child") {
+        std::process::exit(h_proj::c17::child_main(&args[2..]));
+    }
+    if args.get(1).map(|s| s.as_str()) == Some("c17-debug") {
+        let sc = h_proj::c17::scratch();
+        let names: Vec<&str> = args[3].split(',').collect();
+        let (reports, outs) = h_proj::c17::check_selection(&sc, &names, &args[2], 42).unwrap();
+        println!("{:#?}", reports);
+        for o in outs {
+            println!("{} {}", o.title, o.summary);
+        }
+        return;
+    }
+    let (prop, tier, replay) = parse_args();
+    silence_panics();
+    let h = std::thread::Builder::new()
+        .stack_size(512 * 1024 * 1024)
+        .spawn(move || h_proj::dispatch(&prop, tier, replay))
+        .unwrap();
+    std::process::exit(h.join().unwrap_or(2));
+}
